@@ -87,6 +87,16 @@ checks = {
          "bounded exhaustive exploration: after every poll the masked follower equals the restore of its sidecar TXID, sidecar monotone, fixpoint equals restore(latest); every counted syscall of the follower process is a kill point followed by replica advance and resume",
          "follow loop iteration driven through a hook mirroring the loop body; kill indices of the ticker-driven loop are not perfectly reproducible (each K run once, problems reported only if the same K reproduces them)",
          "DESIGN.md §3 C16"),
+ "C17": (E5, "exploration",
+         "exhaustive enumeration on a scaled lock-page geometry (SQLite test control PENDING_BYTE=0x10000, ltx constant patched in a module copy): 8 page sizes x 5 size classes x 9 paths x 2 auto_vacuum modes, plus direct growth-fill calls; one real 1 GiB run in the thorough tier",
+         "every combination is executed on the real litestream code; no LTX file may contain the lock page, every sync/snapshot/compaction succeeds, restore equals the source with an empty lock page, integrity_check ok",
+         "trusted base: SQLite and ltx consult the lock-page position only through the two scaled constants; litestream's own sources are unmodified (its lock offsets in internal/lock_unix.go are scaled by overlay)",
+         "DESIGN.md §3 C17"),
+ "C18": (E1, "model_checking",
+         "explicit-state search over primary histories with VFS open/poll/lock operations at every position; every page and the file size compared with a full restore at the VFS position; time travel compared with timestamp restore",
+         "bounded exhaustive exploration driving the real VFSFile through its Go methods (one poll iteration per VPOLL) with 1-page and default page caches",
+         "VFS driven without a SQLite connection; separate binary built with -tags 'verif vfs' (cgo); four genuine VFS defects are listed as known findings",
+         "DESIGN.md §3 C18"),
  "C19": (E5, "exploration",
          "exhaustive enumeration of legacy 0.3.x layouts generated from real histories (segment splits, snapshot placements, single removals, timestamps, mixed formats) against the generating history's ledger",
          "every layout x removal x timestamp is restored with the real code and compared byte-for-byte with the expected state (or an error is required)",
